@@ -18,22 +18,62 @@ sys.path.insert(0, os.path.dirname(os.path.abspath(__file__)))
 from c18_impl import p1_of, rd  # noqa: E402
 
 
-def read_log(path, data, ignore, threads, max_bytes=None):
+def index_raw(reader):
+    """the index the reader works from, through the public get_index(), in the .p1i record format"""
+    from fusion_engine_client.parsers.file_index import FileIndex
+    try:
+        idx = reader.get_index()
+        return FileIndex._to_raw(idx._data).tobytes().hex()
+    except Exception as e:      # private attribute gone: advisory observable only
+        return 'unavailable: %r' % (e,)
+
+
+def read_log(path, data, ignore, threads, max_bytes=None, opts=None):
     from fusion_engine_client.parsers import MixedLogReader
     try:
         kw = {} if threads is None else {'num_threads': threads}
         if max_bytes is not None:
             kw['max_bytes'] = max_bytes
+        kw.update(opts or {})      # save_index / show_progress / warn_on_gaps
         reader = MixedLogReader(path, ignore_index=ignore, return_header=False, return_payload=True, return_bytes=True,
                                 return_offset=True, **kw)
         try:
+            index = index_raw(reader)
             msgs, ok = [], True
             for payload, b, off in reader:
                 msgs.append([int(off), len(b)])
                 ok = ok and bytes(b) == data[off:off + len(b)]
         finally:
             reader.input_file.close()
-        return {'msgs': msgs, 'bytes_ok': ok, 'p1i': rd(os.path.splitext(path)[0] + '.p1i')}
+        return {'msgs': msgs, 'bytes_ok': ok, 'index': index, 'p1i': rd(os.path.splitext(path)[0] + '.p1i')}
+    except BaseException as e:
+        return {'exc': type(e).__name__, 'msg': str(e)[:200], 'tb': traceback.format_exc()[-500:], 'p1i': rd(os.path.splitext(path)[0] + '.p1i')}
+
+
+def read_two(path, data, threads):
+    """two readers on the same log alive at once, read alternately"""
+    from fusion_engine_client.parsers import MixedLogReader
+    try:
+        kw = {} if threads is None else {'num_threads': threads}
+        ra = MixedLogReader(path, return_header=False, return_payload=False, return_bytes=True, return_offset=True, **kw)
+        rb = MixedLogReader(path, return_header=False, return_payload=False, return_bytes=True, return_offset=True, **kw)
+        seqs, ok = [[], []], True
+        live = [ra, rb]
+        done = [False, False]
+        try:
+            while not all(done):
+                for i, r in enumerate(live):
+                    if done[i]:
+                        continue
+                    try:
+                        b, off = next(r)
+                        seqs[i].append([int(off), len(b)])
+                        ok = ok and bytes(b) == data[off:off + len(b)]
+                    except StopIteration:
+                        done[i] = True
+        finally:
+            ra.input_file.close(); rb.input_file.close()
+        return {'msgs': seqs[0], 'msgs_b': seqs[1], 'bytes_ok': ok, 'p1i': rd(os.path.splitext(path)[0] + '.p1i')}
     except BaseException as e:
         return {'exc': type(e).__name__, 'msg': str(e)[:200], 'tb': traceback.format_exc()[-500:], 'p1i': rd(os.path.splitext(path)[0] + '.p1i')}
 
@@ -79,7 +119,10 @@ def hist_case(c, tmp):
                     f.write(bytes.fromhex(st['hex']))
         else:
             before = rd(ipath)
-            r = read_log(path, data, st.get('ignore', False), st.get('threads'), st.get('max_bytes'))
+            if st['op'] == 'open2':
+                r = read_two(path, data, st.get('threads'))
+            else:
+                r = read_log(path, data, st.get('ignore', False), st.get('threads'), st.get('max_bytes'), st.get('opts'))
             r['before_p1i'] = before
             r['data_unchanged'] = rd(path) == data.hex()
             out.append(r)
